@@ -910,6 +910,10 @@ class Built(object):
                 got = rec.play_data(s['key'])
                 self.journal.add({'ev': 'play_data', 'key': s['key'], 'recorded': v, 'played': got})
             return None
+        if op == 'py':
+            # harness-supplied service code (e.g. "replay a stored recording from inside this operation")
+            s['fn'](self)
+            return None
         if op == 'inner_op':
             # the service calls another decorated operation from inside this one (legal when that class is skipped for recording)
             inner = self.prog.get('_inner_built')
